@@ -12,6 +12,7 @@ type GenOpts struct {
 	NoForeign    bool
 	NoBreakdown  bool
 	NoRounding   bool
+	ZeroRates    bool // the value zero of percentage and surcharge on several rows of one rate (zero.go)
 }
 
 var pctChoices = []Amt{{21, 2}, {10, 2}, {4, 2}, {0, 2}, {52, 3}, {725, 4}, {19, 2}, {5, 3}, {33333, 5}, {210, 3}, {15, 2}, {7, 2}, {24, 2}, {13, 2}, {6, 2}, {1, 2}, {175, 3}}
@@ -357,6 +358,9 @@ func Gen(r *rand.Rand, o GenOpts) *Doc {
 	}
 	genRegimeFamilies(r, d, ri)
 	genNothingSpellings(r, d)
+	if o.ZeroRates && r.Intn(8) == 0 {
+		genZeroRates(r, d, ri)
+	}
 	if !o.NoRounding && r.Intn(25) == 0 {
 		maxE := int(c)
 		if !o.CurrencyOnly && r.Intn(3) == 0 {
